@@ -39,6 +39,10 @@ OPTIONS = {
     "opacity-bounds": dict(lbp=0.2, ubp=0.8),
     "seed-1": dict(seed=1),
     "no-equal-l1": dict(equal_l1norm_constraint=False),
+    # a loose (legal) stopping tolerance: the alternation is still moving when it stops; accurate sub-problem solver so that the
+    # optimality of the factor fitted last can be decided to 1e-3
+    "loose-ftol": dict(ftol=0.1, solver="CLARABEL"),
+    "loose-xtol": dict(xtol=0.1, solver="CLARABEL"),
 }
 
 
@@ -72,8 +76,10 @@ def units(tier, seed):
     out = []
     for sname, spec in _systems(tier):
         n = len(spec["A"][0])
-        for layers in ((1, 2) if tier == "quick" else (1, 2, 3)):
+        for layers in (1, 2, 3):
             if layers == 3 and n > 3:
+                continue
+            if layers == 3 and tier == "quick" and sname not in ("2x3-plain", "3x3-plain"):
                 continue
             nm = len(masks(n, layers))
             opts = list(OPTIONS) if tier == "quick" else list(OPTIONS) + ["subsample-half+opacity-bounds", "no-n_layers+seed-1", "no-equal-l1+opacity-bounds"]
@@ -82,6 +88,8 @@ def units(tier, seed):
                 for ch in range(chunks):
                     if opt != "default" and tier == "quick" and layers == 2 and ch % 2:
                         continue  # deviations on every second mask chunk in the quick tier
+                    if layers == 3 and tier == "quick" and (opt != "default" or ch % 3):
+                        continue  # three layers: default options, every third mask chunk in the quick tier
                     out.append(dict(system=sname, layers=layers, option=opt, chunk=ch, chunks=chunks, tier=tier, seed=seed))
     return out
 
@@ -128,6 +136,10 @@ def run_unit(unit, rec):
         case = dict(mask=mask.tolist(), option=unit["option"])
         call = dict(mask=mask, max_iter=25, seed=kw.get("seed", 0), subsample=kw.get("subsample", None), lbp=lbp, ubp=ubp,
                     equal_l1norm_constraint=kw.get("equal_l1norm_constraint", True))
+        for k_ in ("ftol", "xtol", "solver"):
+            if k_ in kw:
+                call[k_] = kw[k_]
+        accurate = kw.get("solver") == "CLARABEL"
         if not omit:
             call["n_layers"] = layers
         scr = B.script_est(spec) + "T = np.array(%r)\nprint(est.fit_decomposition(T, %s))\n" % (T.tolist(), ", ".join("%s=%s" % (k, ("np.array(%r)" % (v.tolist(),)) if isinstance(v, np.ndarray) else repr(v)) for k, v in call.items()))
@@ -186,7 +198,7 @@ def run_unit(unit, rec):
                         opt, _ = O.box_lsq(G, Bb[i], np.full(layers, lbp), np.full(layers, ubp), w=wv)
                         worst = max(worst, float(np.linalg.norm(wv * (P[i] @ X @ Abar.T - Bb[i]))) - opt)
                     rec.stat_max("last_P_excess", worst)
-                    if worst > 2e-2 + 0.02 * final:
+                    if worst > ((1e-3 + 1e-3 * final) if accurate else (2e-2 + 0.02 * final)):
                         bad = ("g", "an opacity row is not optimal given the final intensities (excess residual %.4g)" % worst)
                 else:
                     # last factor = X given P: any feasible candidate bounds the optimum from above
@@ -219,7 +231,7 @@ def run_unit(unit, rec):
                         cand = None
                     if cand is not None:
                         rec.stat_max("last_X_excess", final - cand)
-                        if final > cand + 2e-2 + 0.02 * cand:
+                        if final > cand + ((1e-3 + 1e-3 * cand) if accurate else (2e-2 + 0.02 * cand)):
                             bad = ("g", "the intensities fitted last are not optimal given the opacities (loss %.5g, a feasible point reaches %.5g)" % (final, cand))
             # h: determinism for the seed
             if bad is None and mi % 3 == 0:
